@@ -29,7 +29,7 @@ simset.inject(wpool, wabs, wastream)
 BUDGETS = {'C08': (45, 900, 100), 'C19': (45, 900, 100)}
 LEVELS = {'C08': 'exploration', 'C19': 'exploration'}
 PROBES = {
-    'C08': ['framing.length', 'framing.chunked', 'framing.close', 'framing.none', 'truncated', 'surplus', 'keepalive_reuse',
+    'C08': ['framing.length', 'framing.chunked', 'framing.close', 'framing.none', 'truncated', 'surplus', 'keepalive_reuse', 'interim_response',
             'nobody_with_length', 'head_request', 'http10', 'lf_only', 'trailers', 'overrun_branch', 'metamorphic',
             'cl_and_te', 'seg.bytes', 'seg.boundary'],
     'C19': ['coding.gzip', 'coding.deflate-zlib', 'coding.deflate-raw', 'coding.identity', 'first_piece_1byte',
@@ -213,6 +213,13 @@ def judge(prop, r, script, outcomes, h, label=''):
             # otherwise not judged here (C09 owns "no other exception escapes"); stop judging this script
             r.log('exchange %d: non-protocol exception %s' % (i, o.get('error_type')))
             break
+        if resp.desc.get('interim') and o.get('ok') and o.get('status') == resp.desc.get('interim_status') and ref.status != o.get('status'):
+            r.probes['interim_response'] += 1
+            r.violate(prop, 'interim-response-taken-as-final', '1xx', 'exchange %d %s: the interim %d response was returned as the response; the final '
+                      'response (%s) is left on the connection and becomes the answer to the next request%s' % (i, resp.desc, o['status'], ref.status, label))
+            break
+        if resp.desc.get('interim'):
+            r.probes['interim_response'] += 1
         if ref.complete and ref.payload is not None:
             # must succeed with exactly the reference result
             if not o.get('ok'):
@@ -340,7 +347,7 @@ def run(tape, prop, tier):
         script = []
         for i in range(n):
             method = 'HEAD' if tape.chance(1, 6, 'head') else 'GET'
-            script.append(httpgen.gen_response(tape, method=method, allow_truncate=faults_on, allow_surplus=faults_on))
+            script.append(httpgen.gen_response(tape, method=method, allow_truncate=faults_on, allow_surplus=faults_on, allow_interim=(prop == 'C08')))
         r.sub = 'faults' if faults_on else 'fault-free'
     outcomes, h = execute(tape, script, r)
     judge(prop, r, script, outcomes, h)
